@@ -88,13 +88,22 @@ const (
 	NoAction                     // no action at all (only the recorder)
 	Mixed                        // rules with an odd number assign $$ from all $i, even ones only record
 	PlainCopy                    // `$$ = $1` (with a field conversion where the tags differ), no recorder: many rules share one action text
+	Bare                         // rules with an even number and a non-empty right-hand side have NO action block at all, the others as UseAll
 )
+
+// IsBare reports whether rule r gets no action block under the shape.
+func IsBare(shape ActionShape, r int, rule gram.Rule) bool {
+	return shape == Bare && r%2 == 0 && len(rule.R) > 0
+}
 
 // ActionFor builds the harness-chosen action of rule number r (1-based).
 // The text is valid Go and valid TypeScript.
 func ActionFor(r int, rule gram.Rule, tags Tags, shape ActionShape) string {
 	if shape == NoAction || (shape == Mixed && r%2 == 0) {
 		return fmt.Sprintf(" rec(%d) ", r)
+	}
+	if IsBare(shape, r, rule) {
+		return ""
 	}
 	lt := tags[rule.L]
 	if shape == PlainCopy {
@@ -151,6 +160,10 @@ type Decorated struct {
 	Chars map[string]byte
 	Tags  Tags
 	Shape ActionShape
+	// Nested: every action ends with nest(), which (Go only) parses the same input once more from
+	// inside the action - on the global parser between PushContex()/PopContex(), on a fresh context
+	// with -o - with the recorder switched to a throw-away run. The outer parse must not notice.
+	Nested bool
 }
 
 // Decorate returns a copy of s with union, tags, types and harness actions;
@@ -215,6 +228,14 @@ func DecorateOpt(s *gram.Spec, tags Tags, shape ActionShape, renumber bool) *Dec
 // Source renders the .y text for one variant and package name.
 func (d *Decorated) Source(variant, pkg string) string {
 	s := *d.Spec
+	if d.Nested {
+		s.Rules = append([]gram.Rule(nil), s.Rules...)
+		for i := range s.Rules {
+			if s.Rules[i].Action != "" {
+				s.Rules[i].Action += "; nest() "
+			}
+		}
+	}
 	if variant == TS {
 		// fields are initialised so that an unassigned $$ reads as 0 / "" as in Go
 		s.Union = "\n n :number = 0;\n s :string = \"\";\n"
@@ -294,6 +315,25 @@ func Translate(lo, hi int) []int {
 `)
 	if !object {
 		b.WriteString(`
+func nest() {
+	outer := rt.Cur
+	if outer == nil || outer.Inner {
+		return
+	}
+	inner := rt.Begin(100000)
+	inner.Inner = true
+	trace := IsTrace
+	IsTrace = false
+	PushContex()
+	func() {
+		defer func() { recover() }()
+		ParserInit()
+		Parser(outer.Input)
+	}()
+	PopContex()
+	IsTrace = trace
+	rt.Cur = outer
+}
 func Run(input string, trace bool, r *rt.Run, init bool) (res rt.Result) {
 	defer func() {
 		if p := recover(); p != nil {
@@ -319,6 +359,26 @@ func init() {
 `)
 	} else {
 		b.WriteString(`
+func nest() {
+	outer := rt.Cur
+	if outer == nil || outer.Inner {
+		return
+	}
+	inner := rt.Begin(100000)
+	inner.Inner = true
+	trace := IsTrace
+	if trace {
+		IsTrace = false
+	}
+	func() {
+		defer func() { recover() }()
+		MakeParserContext().Parser(outer.Input)
+	}()
+	if trace {
+		IsTrace = true
+	}
+	rt.Cur = outer
+}
 func Run(input string, trace bool, r *rt.Run, init bool) (res rt.Result) {
 	return RunCtx(MakeParserContext(), input, trace, r, false)
 }
@@ -392,6 +452,7 @@ function ns(s :string) :number { return RT.ns(s); }
 function use(s :string) {}
 function rec(r :number) { RT.rec(r); }
 function tick() { RT.tick(); }
+function nest() {}
 RT.exportParser({
 	parse: function (input :string) { return Parser(input); },
 	init: function () { initialize(); },
